@@ -461,8 +461,11 @@ func formatHour(t time.Time, marker *variableMarker, hour12 bool) (string, error
 	}
 
 	h := t.Hour()
-	if hour12 && h > 12 {
-		h -= 12
+	if hour12 {
+		h %= 12
+		if h == 0 {
+			h = 12
+		}
 	}
 	return formatIntegerComponent(h, marker)
 }
